@@ -31,6 +31,10 @@ FIXED = [
     ("rev", 8, 2, ("off", 10, 3, ("chain", 4, (4, 0, 2), ("base",)))),
     ("off", 5, 1, ("off", 9, 4, ("base",))),
     ("chain", 2, (2, 0, 1), ("off", 8, 6, ("base",))),
+    # gap-free sector ranges entered at the lowest and left at the highest sector, the middle out of order
+    ("chain", 2, (3, 5, 4, 6, 7), ("base",)),
+    ("chain", 3, (1, 3, 2, 4), ("base",)),
+    ("off", 9, 1, ("chain", 2, (2, 4, 3, 5, 6), ("base",))),
 ]
 
 
